@@ -1002,20 +1002,40 @@ func ruleStreamsRegistered(c *Ctx) {
 	c.saw(fnName(bc))
 	send := P.IMethod(rs, "ServerStream", "Send")
 	n := 0
-	for _, l := range loopsOf(bc) {
-		has := false
-		for b := range l.blocks {
-			for _, ins := range b.Instrs {
-				if isCallTo(ins, send) {
-					has = true
+	// the sending loop is in broadcast itself, or in a helper of the package that every broadcast calls
+	where := []*ssa.Function{bc}
+	for _, b := range bc.Blocks {
+		for _, ins := range b.Instrs {
+			ci, ok := ins.(ssa.CallInstruction)
+			if !ok {
+				continue
+			}
+			h := ci.Common().StaticCallee()
+			if h == nil || h == bc || h.Pkg != bc.Pkg || len(h.Blocks) == 0 || len(callsIn(h, false, send)) == 0 {
+				continue
+			}
+			helper := h
+			c.need(rule, bc, "return of "+fnName(bc), func(x ssa.Instruction) bool { _, ok := x.(*ssa.Return); return ok },
+				[]Ev{&calledEv{name: "call " + fnName(helper), match: func(x ssa.Instruction) bool { return isCallTo(x, F(helper)) }}}, all, "every broadcast goes through the sending helper")
+			where = append(where, helper)
+		}
+	}
+	for _, f := range where {
+		for _, l := range loopsOf(f) {
+			has := false
+			for b := range l.blocks {
+				for _, ins := range b.Instrs {
+					if isCallTo(ins, send) {
+						has = true
+					}
 				}
 			}
+			if !has {
+				continue
+			}
+			n++
+			c.Check(everyIterationCalls(l, func(x ssa.Instruction) bool { return isCallTo(x, send) }), rule, "streams served by "+fnName(bc), "every registered follower is sent every broadcast", P.pos(f.Pos()), "an iteration can pass without Send")
 		}
-		if !has {
-			continue
-		}
-		n++
-		c.Check(everyIterationCalls(l, func(x ssa.Instruction) bool { return isCallTo(x, send) }), rule, "streams served by "+fnName(bc), "every registered follower is sent every broadcast", P.pos(bc.Pos()), "an iteration can pass without Send")
 	}
 	if n == 0 {
 		c.Undec(rule, "loop over the streams in "+fnName(bc), "found", P.pos(bc.Pos()), "")
